@@ -221,6 +221,10 @@ def r4_dispatch_and_remove(ctx):
     ic = F.one(r"^jsonrpsee_core::server::rpc_module::Methods::inner_call::\{closure#0\}$")
     R.fn(ic)
     look = ic.calls_to(r"Methods::method$|Methods::method_with_name$")
+    # a lookup whose result is never branched on (it only feeds a log line) decides nothing
+    deciding = [l for l in look if flow.switch_on(ic, l.dest["l"])]
+    if len(deciding) >= 1 and len(deciding) < len(look):
+        look = deciding
     R.check(len(look) == 1, "C13.R4", "inner_call:lookup", "one lookup by name", "%d lookups in inner_call" % len(look), "%s:%d" % (ic.file, ic.lo))
     for l in look:
         lv = tr.origins(ic, l.args[1])
